@@ -501,7 +501,7 @@ def run(pid, tier):
     if pid == "C12":
         # the base client's retry handles: a request made before Connect transmitted nothing, so the first PUBLISH that
         # reaches the wire afterwards (through a handle, if the error offers one) is a first transmission (DUP=0)
-        pre = [{"id": "pre-%s" % k, "mode": "preconnect", "kind": k} for k in ("pub1", "pub2", "pub0")]
+        pre = [{"id": "pre-%s" % k, "mode": "preconnect", "kind": k} for k in ("pub1", "pub2", "pub0")] + [{"id": "late-%d" % k, "mode": "latepubrec", "kind": "pub2"} for k in range(3)]
         pp = vlib.run_drive(binary, ["run", "errchain", "-j", "2", "-c", "1", "-timeout", "60s"], stdin="\n".join(json.dumps(x) for x in pre) + "\n", timeout=300)
         if pp.returncode != 0:
             raise vlib.Infra("errchain driver failed: " + pp.stderr[-1000:])
@@ -511,6 +511,11 @@ def run(pid, tier):
             r = json.loads(line)
             if r.get("infra") or "crash" in r:
                 raise vlib.Infra("errchain preconnect: %s" % line[:300])
+            seq_ = r.get("seq") or []
+            if "PUBREL" in seq_ and "PUBLISH" in seq_[seq_.index("PUBREL"):]:
+                # a PUBREC that arrives after its Publish gave up belongs to nobody; the retry handle repeats the PUBLISH
+                fam.verd.witness("C12_NoPubAfterRel", "base-client-handle", "QoS 2 publish given up before its (late) PUBREC, then retried through its handle on the same connection: "
+                                 "packets for that identifier on the wire: %s" % seq_, {"scenario": next(x for x in pre if x["id"] == r["id"]), "result": r})
             if r.get("dups") and r["dups"][0]:
                 fam.verd.witness("C12_FirstTransmissionDup", r["kind"], "%s before Connect failed (retry handle offered: %s); after Connect the first PUBLISH on the wire has DUP=1"
                                  % (r["kind"], r["handle"]), {"scenario": next(x for x in pre if x["id"] == r["id"]), "result": r})
